@@ -69,14 +69,29 @@ Theorem C13_param_default_reads_back :
 Proof. exact populated_scalar_reads_back. Qed.
 Print Assumptions C13_param_default_reads_back.
 
-(* array defaults: the population uses `Explode != nil && *Explode` while the decoder uses the
-   location's default (exploded for query): the forwarded request does not decode to the default *)
-Theorem C13_refuted_array_default :
+(* array defaults are written the way the parameter's serialization method reads them back (the
+   population used `Explode != nil && *Explode` and "," whatever the style, and fmt.Sprint for header
+   arrays, until it was repaired in /repo): the forwarded request decodes to the default's elements *)
+Theorem C13_array_default_reads_back :
+  forall pi64 pi32 pf sprint p l ic vs,
+    pd_in p <> LPath ->
+    allowed_cell (pd_in p) (eff_style p) (eff_explode p) = true ->
+    defined_cell p (SArr (map sprint l)) = true ->
+    shape_of (pd_schema p) = ShArr (Some ic) ->
+    l <> [] -> Forall (fun t => t <> ""%string) (map sprint l) ->
+    (pd_in p = LQuery -> eff_explode p = true \/ clean (arr_sep LQuery (eff_style p) (eff_explode p)) (map sprint l)) ->
+    (pd_in p <> LQuery -> clean (arr_sep (pd_in p) (eff_style p) (eff_explode p)) (map sprint l)) ->
+    leaves pi64 pi32 pf (map sprint l) ic = Some vs -> Forall (fun v => v <> PNil) vs ->
+    decode_param pi64 pi32 pf p (populate sprint p frag0 (JArr l)) = DRes (PA vs) true None.
+Proof. exact populated_array_reads_back. Qed.
+Print Assumptions C13_array_default_reads_back.
+(* the former refuted witness, now on the side of the property *)
+Example C13_array_default_example :
   let intS := Sch (mkCore (Some ["integer"]) [] false false false false "" false false false None None None 0 None "" 0 None [] 0 None None) None [] [] [] None [] None in
   let arrS := Sch (mkCore (Some ["array"]) [] false false false false "" false false false None None None 0 None "" 0 None [] 0 None None) None [] [] [] (Some intS) [] None in
   let p := mkPDef LQuery "id" "" None false false arrS in
   let sprint v := match v with JNum x => if PrimFloat.eqb x 1 then "1" else "2" | _ => "?" end in
   let pi s := if String.eqb s "1" then Some 1%Z else if String.eqb s "2" then Some 2%Z else None in
   decode_param pi pi (fun _ => None) p (populate sprint p frag0 (JArr [JNum 1; JNum 2]))
-  = DRes PNil true (Some DParse).
+  = DRes (PA [PI64 1; PI64 2]) true None.
 Proof. vm_compute. reflexivity. Qed.
